@@ -77,10 +77,12 @@ const (
 	radialConcentric
 	radialFocal
 	radialNested
+	gradient3
 )
 
 var paintNames = []string{"opaque red", "red alpha 0.5 (premultiplied)", "linear gradient",
-	"radial gradient, concentric (r0=0)", "radial gradient with the focal point off the centre (r0=0)", "radial gradient between two nested circles (r0>0, centres apart)"}
+	"radial gradient, concentric (r0=0)", "radial gradient with the focal point off the centre (r0=0)", "radial gradient between two nested circles (r0>0, centres apart)",
+	"linear gradient with the stops 0.2 red, 0.5 green, 0.9 blue"}
 
 // radial gradient menu: circle 0 lies inside circle 1, so every point has exactly one parameter t
 // with |p - c(t)| = r(t), r(t) >= 0
@@ -109,9 +111,41 @@ func mkPaint(k paintKind) canvas.Paint {
 		return canvas.Paint{Gradient: g}
 	}
 	g := canvas.NewLinearGradient(canvas.Point{X: 1, Y: 2}, canvas.Point{X: 9, Y: 6})
+	if k == gradient3 {
+		// added out of order; before the first and after the last stop the end colours continue
+		g.Add(0.9, color.RGBA{0, 0, 250, 255})
+		g.Add(0.2, color.RGBA{250, 0, 0, 255})
+		g.Add(0.5, color.RGBA{0, 200, 0, 255})
+		return canvas.Paint{Gradient: g}
+	}
 	g.Add(0, color.RGBA{250, 0, 0, 255})
 	g.Add(1, color.RGBA{0, 0, 250, 255})
 	return canvas.Paint{Gradient: g}
+}
+
+// grad3At: the three-stop linear gradient at canvas point p
+func grad3At(p oracle.Pt) [4]float64 {
+	s, e := oracle.Pt{X: 1, Y: 2}, oracle.Pt{X: 9, Y: 6}
+	d := e.Sub(s)
+	t := p.Sub(s).Dot(d) / d.Dot(d)
+	stops := []struct {
+		t float64
+		c [4]float64
+	}{{0.2, [4]float64{250, 0, 0, 255}}, {0.5, [4]float64{0, 200, 0, 255}}, {0.9, [4]float64{0, 0, 250, 255}}}
+	if t <= stops[0].t {
+		return stops[0].c
+	}
+	for k := 1; k < len(stops); k++ {
+		if t <= stops[k].t {
+			u := (t - stops[k-1].t) / (stops[k].t - stops[k-1].t)
+			var c [4]float64
+			for i := range c {
+				c[i] = stops[k-1].c[i]*(1-u) + stops[k].c[i]*u
+			}
+			return c
+		}
+	}
+	return stops[len(stops)-1].c
 }
 
 // radialAt: expected colour of a radial gradient at canvas point p: the parameter t of the circle
@@ -305,9 +339,11 @@ func checkFill(r *fw.R, c fillCase) {
 				want = [4]float64{200, 30, 20, 255}
 			case halfAlpha:
 				want = [4]float64{100, 15, 10, 128}
-			case gradient, radialConcentric, radialFocal, radialNested:
+			case gradient, radialConcentric, radialFocal, radialNested, gradient3:
 				want = gradAt(q)
-				if paintKind(c.paint) != gradient {
+				if paintKind(c.paint) == gradient3 {
+					want = grad3At(q)
+				} else if paintKind(c.paint) != gradient {
 					want = radialAt(paintKind(c.paint), q)
 				}
 				if c.cs >= 1 {
